@@ -228,3 +228,9 @@ def test_fixed_C10_shared_grammar_object_invert():                  # see known_
     Lark(g, parser='earley', priority='invert')
     assert p1.parse('x') == before
     assert Lark(g, parser='earley').parse('x') == before
+
+
+def test_fixed_C03_template_argument_shared_terminal():
+    p = Lark('start: a{"k"}\na{x}: x b{x}\n!b{y}: y\n', parser='lalr')
+    a, = p.parse('kk').children
+    assert [getattr(c, 'data', None) for c in a.children] == ['b']      # the literal is filtered in a, kept in !b
